@@ -94,6 +94,11 @@ type EffectDirective struct {
 
 type PropFile struct{ Prop, File, Re string }
 
+type ResetDirective struct {
+	Prop, Type, Reset string
+	Readers, Ignore   []string
+}
+
 type ClauseAll struct {
 	Re, Clause string
 	Line       int
@@ -106,6 +111,7 @@ type EnsuresAll struct {
 }
 
 type ContractFile struct {
+	Resets     []ResetDirective
 	ClauseAll  []ClauseAll
 	EnsuresAll []EnsuresAll
 	PropFiles []PropFile
@@ -202,6 +208,30 @@ func processContractLines(cf *ContractFile, lines []string, lnos []int) error {
 				}
 			}
 			cf.Effects = append(cf.Effects, d)
+			cur = nil
+			continue
+		case strings.HasPrefix(t, "resets "):
+			// resets Cxx Type | resetFunc | reader1, reader2 | ignored fields
+			parts := strings.Split(strings.TrimPrefix(t, "resets "), "|")
+			if len(parts) != 4 {
+				return fmt.Errorf("line %d: resets Cxx Type | resetFunc | readers | ignored fields", no)
+			}
+			hd := strings.Fields(parts[0])
+			if len(hd) != 2 {
+				return fmt.Errorf("line %d: resets needs property and type", no)
+			}
+			d := ResetDirective{Prop: hd[0], Type: hd[1], Reset: strings.TrimSpace(parts[1])}
+			for _, f := range strings.Split(parts[2], ",") {
+				if f = strings.TrimSpace(f); f != "" {
+					d.Readers = append(d.Readers, f)
+				}
+			}
+			for _, f := range strings.Split(parts[3], ",") {
+				if f = strings.TrimSpace(f); f != "" {
+					d.Ignore = append(d.Ignore, f)
+				}
+			}
+			cf.Resets = append(cf.Resets, d)
 			cur = nil
 			continue
 		case strings.HasPrefix(t, "guard "):
